@@ -10,7 +10,8 @@ import Model.Wire
 
 * `AddBatch`  : bound check, `Put(key(batch), encode(batch))`, then append in memory.
 * `Next`      : pop the head in memory, then `Delete(key(batch))`.
-* `Load`      : forget memory, iterate the key space **in datastore (= key) order**, append.
+* `Load`      : forget memory, iterate the key space **in datastore (= key) order**, append – all entries,
+                whatever `maxQueueSize` is (the bound is checked by `AddBatch` only: an admission bound).
 * `Sequencer.SubmitBatchTxs` / `GetNextBatch` : chain-id check, empty batches are skipped, then the above.
 
 Every operation performs at most one atomic datastore write, so the crash points "between two
